@@ -102,6 +102,8 @@ def HdrsOkK (H : Hdr) : HPos → List K → Prop
   | p, .R :: r => HdrsOkK H p r
   | p, .M :: r => HdrsOkK H p r
   | p, .S :: r => HdrsOkK H p r
+  | p, .W :: r => HdrsOkK H p r
+  | p, .Wpart :: r => HdrsOkK H p r
 
 /-- the positional hypothesis on a frame sequence -/
 def HdrsOk (H : Hdr) (toks : List Tok) : Prop := HdrsOkK H .head (toks.map kind)
